@@ -403,7 +403,7 @@ pub fn f6_loops(rng: &mut Rng, name: &str) -> Def {
         // every pattern starts with the same starred group: the automaton re-enters its start
         // state in the middle of a token
         def.family = "F6-rootloop".into();
-        let star = rng.pick_str(&["(ab)*", "a*", "[a-c]*", "(x|yz)*", "(a|b)*", "[0-9]*", "(é)*"]);
+        let star = rng.pick_str(&["(ab)*", "a*", "[a-c]*", "(x|yz)*", "(a|b)*", "[0-9]*", "(é)*", "(a|bc)*", "([0-9]|x[a-f])*", "(a|b|cd)*", "([a-c]|xyz)*"]);
         let tails = ["c", "d", "xy", "[q-t]", "0", "zz?", "[k-m]+"];
         let n = rng.range(1, 3);
         let mut used: Vec<&str> = vec![];
@@ -489,7 +489,13 @@ pub fn f10_subpat(rng: &mut Rng, name: &str) -> Def {
     for _ in 0..n {
         let r = rng.pick(&names).clone();
         let other = rand_re(rng, &ReCfg::basic(), 2).render();
-        let text = match rng.below(10) {
+        let text = match rng.below(12) {
+            // the reference directly after an escaped backslash / escaped parenthesis / other escape
+            10 => {
+                let esc = rng.pick_str(&["\\\\", "\\(", "\\.", "\\\\\\\\", "a\\\\", "\\["]);
+                format!("{esc}(?&{r})")
+            }
+            11 => format!("\\\\(?&{r})\\\\(?&{r})x"),
             // verbose mode active at the reference
             7 => format!("(?x) [a-z]+ (?&{r}) [0-9]+"),
             8 => format!("(?x: (?&{r}) ) z | k(?&{r})"),
@@ -516,7 +522,19 @@ pub fn f10_subpat(rng: &mut Rng, name: &str) -> Def {
         let r = rng.pick(&names).clone();
         def.push(Pat::skip(&format!(" (?&{r})?")));
     }
-    if rng.chance(1, 10) {
+    if rng.chance(1, 14) {
+        // an unbounded greedy dot hidden in a subpattern, referenced from a pattern that spells no repetition itself:
+        // rejected exactly like the expanded form
+        let body = rng.pick_str(&[".*", "[^\\n]*", "x.+", "(?s:.)*", "(a|.*)", ".{2,}"]);
+        def.subpats.push(("rest".into(), Lit::s(body)));
+        let text = rng.pick_str(&["//(?&rest)", "#(?&rest)", "(?&rest)!", "q(?&rest)|z"]);
+        if rng.chance(1, 2) {
+            def.push(Pat::regex(text, 0).prio(95));
+        } else {
+            def.push(Pat::skip(text).prio(95));
+        }
+        def.family = "F10-greedy".into();
+    } else if rng.chance(1, 10) {
         // undefined reference: must be rejected
         def.push(Pat::regex("(?&nope)x", 0));
         def.family = "F10-undef".into();
@@ -868,6 +886,11 @@ pub fn f7_curated() -> Vec<Def> {
     // fast loop of every length, two-state loop
     mk(true, vec![Pat::regex("a+", 0), Pat::regex("(bc)+", 0), Pat::skip(" +")]);
     mk(false, vec![Pat::regex("a+", 0), Pat::regex("(bc)+", 0), Pat::skip(" +")]);
+    // a start state that loops on itself and is also re-entered through a longer cycle (the fast loop of the root runs
+    // again in the middle of a token)
+    mk(true, vec![Pat::regex("(a|bc)*d", 0)]);
+    mk(false, vec![Pat::regex("([0-9]|x[a-f])*;", 0)]);
+    mk(true, vec![Pat::regex("(a|bc)*d", 0), Pat::regex("(a|bc)*e", 0)]);
     // early accept (byte mode, all 256 edges), kept late accept
     mk(false, vec![Pat::regex("a(?s-u:.)", 0), Pat::token("b", 0)]);
     mk(false, vec![Pat::regex("(?s-u:.)", 0).prio(1), Pat::regex("ab+", 0)]);
